@@ -219,6 +219,7 @@ type retRec struct {
 	st   *State
 	vals []Value
 	pos  string
+	at   token.Pos
 }
 
 type loopInfo struct {
@@ -243,6 +244,7 @@ type Frame struct {
 	rets      []retRec
 	defers    []deferRec
 	callCount map[string]int
+	lastRet   map[string]Value // results of the latest call through an unknown function value, by its term
 	locals    map[string][]ssa.Value // source name -> SSA values (from DebugRef)
 	localAddr map[string]ssa.Value   // source name -> address (address-taken locals)
 	cur       *ssa.BasicBlock
